@@ -56,4 +56,21 @@ theorem source_hub_sync_exits_zero_iff_no_conflict (conflicts : Nat) :
   unfold Copia.Gen.Loops.hubSyncExitGen
   cases conflicts <;> simp [Id.run, pure]
 
+/-- `HubClient::list` (translated): the listing the push loop works from is EXACTLY the map of a `Fingerprints` reply; any other reply, or none,
+is an error — never an empty listing taken for an empty hub -/
+theorem source_client_list_is_the_reply {H : Type} (recv : Option (Reply H)) (m : List (List (List Char) × H)) :
+    (Copia.Gen.Loops.clientListGen recv).2 = some m ↔ recv = some (Reply.fingerprints m) := by
+  unfold Copia.Gen.Loops.clientListGen
+  cases recv with
+  | none => simp [Id.run, pure]
+  | some r => cases r <;> simp [Id.run, pure]
+
+/-- the handshake of `HubClient::connect` (translated): the connection is used only after a `Hello` reply with version ≥ 1 -/
+theorem source_handshake_accepts_only_hello {H : Type} (recv : Option (Reply H)) :
+    Copia.Gen.Loops.handshakeGen recv = true ↔ ∃ v, recv = some (Reply.hello v) ∧ 1 ≤ v := by
+  unfold Copia.Gen.Loops.handshakeGen
+  cases recv with
+  | none => simp [Id.run, pure]
+  | some r => cases r <;> simp [Id.run, pure]
+
 end Copia.C13
